@@ -17,11 +17,11 @@ def oracle_eq(ck, m, four, h, x=None, co=None):
     replay = {'oracle': 'nonsep', 'm': m, 'four': four, 'h': [arr_json(f) for f in h], 'x': arr_json(x), 'co': arr_json(co)}
     if x is not None:
         desc = 'afb2d_nonsep vs afb2d mode=%s L=(%d,%d) shape=%s' % (gen.MODE_NAME[m], len(hc0), len(hr0), tuple(x.shape))
-        a = rt.run_impl(rt.Case('Z', 'afb2d_nonsep', [m], [hc0, hc1, hr0, hr1, x]), IMPL)
+        a = rt.run_impl(rt.Case('Z', 'afb2d_nonsep', [m, ck.rng.randint(0, 2)], [hc0, hc1, hr0, hr1, x]), IMPL)
         b = rt.run_impl(rt.Case('Z', 'afb2d', [m], [hc0[::-1].copy(), hc1[::-1].copy(), hr0[::-1].copy(), hr1[::-1].copy(), x]), IMPL)
     else:
         desc = 'sfb2d_nonsep vs sfb2d mode=%s L=(%d,%d) coeffs=%s' % (gen.MODE_NAME[m], len(hc0), len(hr0), tuple(co.shape))
-        a = rt.run_impl(rt.Case('Z', 'sfb2d_nonsep', [m], [hc0, hc1, hr0, hr1, co]), IMPL)
+        a = rt.run_impl(rt.Case('Z', 'sfb2d_nonsep', [m, ck.rng.randint(0, 2)], [hc0, hc1, hr0, hr1, co]), IMPL)
         b = rt.run_impl(rt.Case('Z', 'sfb2d', [m], [hc0, hc1, hr0, hr1, co[:, :, 0], co[:, :, 1], co[:, :, 2], co[:, :, 3]]), IMPL)
     ra, rb = isinstance(a, tuple), isinstance(b, tuple)
     if ra or rb:
@@ -56,10 +56,10 @@ def oracle(ck, extended):
         nb, c = rng.choice([(1, 1), (2, 1), (1, 2)])
         if it % 2 == 0:
             x = gen.int_tensor(rng, (nb, c, gen.pick_len(rng, Lc, 14), gen.pick_len(rng, Lr, 14)))
-            oracle_eq(ck, m, four, (c0, c1, r0, r1), x=x)
+            rt.guard(ck, oracle_eq, ck, m, four, (c0, c1, r0, r1), x=x)
         else:
             co = gen.int_tensor(rng, (nb, c, 4, rng.randint(1, 7), rng.randint(1, 7)))
-            oracle_eq(ck, m, four, (c0, c1, r0, r1), co=co)
+            rt.guard(ck, oracle_eq, ck, m, four, (c0, c1, r0, r1), co=co)
 
 
 def run(ck):
